@@ -41,7 +41,7 @@
 #ifndef CFG_ELEM
 #define CFG_ELEM 0
 #endif
-#ifndef CFG_ALLOC      // 0 std::allocator, 1 LedgerAlloc
+#ifndef CFG_ALLOC      // 0 std::allocator, 1 LedgerAlloc, 2 LedgerAlloc handing out fancy pointers (FancyPtr<T>)
 #define CFG_ALLOC 1
 #endif
 #ifndef CFG_POCCA
@@ -462,6 +462,83 @@ template <> struct SizeT<16> { typedef std::uint16_t size_type; typedef std::int
 template <> struct SizeT<32> { typedef std::uint32_t size_type; typedef std::int32_t difference_type; };
 template <> struct SizeT<64> { typedef std::size_t   size_type; typedef std::ptrdiff_t difference_type; };
 
+
+#if CFG_ALLOC == 2
+// A fancy pointer that is not a disguised raw pointer: the stored bits are the address XOR a key, there is no
+// implicit conversion TO T* (only from it), and a value-initialised FancyPtr is null.  Code that reinterprets the
+// representation, or that needs a raw pointer where the allocator's pointer type is required, does not work with it.
+static const std::uintptr_t FP_KEY = static_cast<std::uintptr_t> (0x5a5a0000a5a5ull);
+template <typename T> struct fp_ref                { typedef T &type; };
+template <>           struct fp_ref<void>          { typedef void type; };
+template <>           struct fp_ref<const void>    { typedef void type; };
+struct fp_nat { };
+
+template <typename T>
+struct FancyPtr
+{
+  typedef T                                  element_type;
+  typedef std::ptrdiff_t                     difference_type;
+  typedef typename std::remove_cv<T>::type   value_type;
+  typedef T *                                pointer;
+  typedef typename fp_ref<T>::type           reference;
+  typedef std::random_access_iterator_tag    iterator_category;
+#if defined (__cpp_lib_concepts)
+  typedef std::contiguous_iterator_tag       iterator_concept;
+#endif
+  template <typename U> using rebind = FancyPtr<U>;
+
+  std::uintptr_t bits;
+
+  FancyPtr () noexcept : bits (FP_KEY) { }
+  FancyPtr (std::nullptr_t) noexcept : bits (FP_KEY) { }
+  // like boost::interprocess::offset_ptr (and as the library requires): implicitly constructible from a raw pointer ...
+  FancyPtr (T *p) noexcept : bits (reinterpret_cast<std::uintptr_t> (p) ^ FP_KEY) { }
+  // ... and from the matching void pointer (the library static_casts `void *` to its pointer type)
+  template <typename V, typename std::enable_if<std::is_void<V>::value && ! std::is_void<T>::value
+                                                && (std::is_const<T>::value || ! std::is_const<V>::value), int>::type = 0>
+  explicit FancyPtr (V *p) noexcept : bits (reinterpret_cast<std::uintptr_t> (p) ^ FP_KEY) { }
+  // T* -> const T*, T* -> void* style conversions are implicit ...
+  template <typename U, typename std::enable_if<std::is_convertible<U *, T *>::value && ! std::is_same<U, T>::value, int>::type = 0>
+  FancyPtr (const FancyPtr<U> &o) noexcept : bits (o.bits) { }
+  // ... void* -> T* needs a static_cast
+  template <typename U, typename std::enable_if<std::is_void<U>::value && ! std::is_void<T>::value
+                                                && (std::is_const<T>::value || ! std::is_const<U>::value), int>::type = 0>
+  explicit FancyPtr (const FancyPtr<U> &o) noexcept : bits (o.bits) { }
+
+  static FancyPtr from_raw (T *p) noexcept { FancyPtr r; r.bits = reinterpret_cast<std::uintptr_t> (p) ^ FP_KEY; return r; }
+  T *get () const noexcept { return reinterpret_cast<T *> (bits ^ FP_KEY); }
+  static FancyPtr pointer_to (typename std::conditional<std::is_void<T>::value, fp_nat, T>::type &r) noexcept
+  { return from_raw (reinterpret_cast<T *> (const_cast<char *> (&reinterpret_cast<const volatile char &> (r)))); }
+
+  explicit operator bool () const noexcept { return get () != 0; }
+  reference operator* () const noexcept { return *get (); }
+  T *operator-> () const noexcept { return get (); }
+  reference operator[] (difference_type n) const noexcept { return get ()[n]; }
+  FancyPtr &operator++ () noexcept { *this = from_raw (get () + 1); return *this; }
+  FancyPtr &operator-- () noexcept { *this = from_raw (get () - 1); return *this; }
+  FancyPtr operator++ (int) noexcept { FancyPtr t = *this; ++*this; return t; }
+  FancyPtr operator-- (int) noexcept { FancyPtr t = *this; --*this; return t; }
+  FancyPtr &operator+= (difference_type n) noexcept { *this = from_raw (get () + n); return *this; }
+  FancyPtr &operator-= (difference_type n) noexcept { *this = from_raw (get () - n); return *this; }
+  friend FancyPtr operator+ (FancyPtr a, difference_type n) noexcept { a += n; return a; }
+  friend FancyPtr operator+ (difference_type n, FancyPtr a) noexcept { a += n; return a; }
+  friend FancyPtr operator- (FancyPtr a, difference_type n) noexcept { a -= n; return a; }
+};
+template <typename T, typename U>
+inline auto operator- (const FancyPtr<T> &a, const FancyPtr<U> &b) noexcept -> decltype (a.get () - b.get ()) { return a.get () - b.get (); }
+#define FP_CMP(OP)                                                                                                       \
+  template <typename T, typename U> inline bool operator OP (const FancyPtr<T> &a, const FancyPtr<U> &b) noexcept       \
+  { return static_cast<const volatile void *> (a.get ()) OP static_cast<const volatile void *> (b.get ()); }              \
+  template <typename T> inline bool operator OP (const FancyPtr<T> &a, std::nullptr_t) noexcept                         \
+  { return static_cast<const volatile void *> (a.get ()) OP static_cast<const volatile void *> (0); }                     \
+  template <typename T> inline bool operator OP (std::nullptr_t, const FancyPtr<T> &b) noexcept                         \
+  { return static_cast<const volatile void *> (0) OP static_cast<const volatile void *> (b.get ()); }
+FP_CMP (==) FP_CMP (!=) FP_CMP (<) FP_CMP (<=) FP_CMP (>) FP_CMP (>=)
+#undef FP_CMP
+template <typename T> static inline T *raw (const FancyPtr<T> &p) { return p.get (); }
+#endif
+template <typename T> static inline T *raw (T *p) { return p; }
+
 static int g_default_aid = 1;
 
 template <typename T>
@@ -476,12 +553,32 @@ struct LedgerAlloc
   typedef std::integral_constant<bool, CFG_AE    != 0> is_always_equal;
   template <typename U> struct rebind { typedef LedgerAlloc<U> other; };
 
+#if CFG_ALLOC == 2
+  typedef FancyPtr<T>          pointer;
+  typedef FancyPtr<const T>    const_pointer;
+  typedef FancyPtr<void>       void_pointer;
+  typedef FancyPtr<const void> const_void_pointer;
+#else
+  typedef T *pointer;
+#endif
+
   int id;
 
   LedgerAlloc () noexcept : id (g_default_aid) { }
   explicit LedgerAlloc (int i) noexcept : id (i) { }
   template <typename U> LedgerAlloc (const LedgerAlloc<U> &o) noexcept : id (o.id) { }
 
+#if CFG_ALLOC == 2
+  pointer allocate (size_type n)
+  {
+    return pointer::from_raw (reinterpret_cast<T *> (ledger_allocate (static_cast<size_t> (n), sizeof (T), id)));
+  }
+
+  void deallocate (pointer p, size_type n) noexcept
+  {
+    ledger_deallocate (p.get (), static_cast<long> (n), id);
+  }
+#else
   T *allocate (size_type n)
   {
     return reinterpret_cast<T *> (ledger_allocate (static_cast<size_t> (n), sizeof (T), id));
@@ -491,6 +588,7 @@ struct LedgerAlloc
   {
     ledger_deallocate (p, static_cast<long> (n), id);
   }
+#endif
 
   size_type max_size () const noexcept
   {
@@ -801,7 +899,7 @@ static int g_probe_bad;    // set when the probe could not classify something (i
 template <typename V>
 static int store_of (const V &v)
 {
-  const char *p = reinterpret_cast<const char *> (v.data ());
+  const char *p = reinterpret_cast<const char *> (raw (v.data ()));
   if (p == 0) return -2;
   const char *o = reinterpret_cast<const char *> (&v);
   if (o <= p && p < o + sizeof (V)) return 0;
@@ -825,18 +923,18 @@ static int views_agree (V &v)     // bit 0: member views contiguous / consistent
   ok = ok && static_cast<sz_t> (cv.rend () - cv.rbegin ()) == n;
   ok = ok && static_cast<sz_t> (v.crend () - v.crbegin ()) == n;
   ok = ok && (v.empty () == (n == 0));
-  ok = ok && (cv.data () == v.data ());
+  ok = ok && (raw (cv.data ()) == raw (v.data ()));
   for (sz_t i = 0; i < n && ok; ++i)
     {
-      ok = ok && (&v[i] == v.data () + i) && (&cv[i] == cv.data () + i);
-      ok = ok && (&*(v.begin () + static_cast<std::ptrdiff_t> (i)) == v.data () + i);
-      ok = ok && (&*(cv.begin () + static_cast<std::ptrdiff_t> (i)) == v.data () + i);
-      ok = ok && (&*(v.rbegin () + static_cast<std::ptrdiff_t> (n - 1 - i)) == v.data () + i);
-      ok = ok && (&v.at (i) == v.data () + i);
+      ok = ok && (&v[i] == raw (v.data ()) + i) && (&cv[i] == raw (cv.data ()) + i);
+      ok = ok && (&*(v.begin () + static_cast<std::ptrdiff_t> (i)) == raw (v.data ()) + i);
+      ok = ok && (&*(cv.begin () + static_cast<std::ptrdiff_t> (i)) == raw (v.data ()) + i);
+      ok = ok && (&*(v.rbegin () + static_cast<std::ptrdiff_t> (n - 1 - i)) == raw (v.data ()) + i);
+      ok = ok && (&v.at (i) == raw (v.data ()) + i);
     }
   if (n > 0)
-    ok = ok && (&v.front () == v.data ()) && (&v.back () == v.data () + (n - 1))
-            && (&cv.front () == v.data ()) && (&cv.back () == v.data () + (n - 1));
+    ok = ok && (&v.front () == raw (v.data ())) && (&v.back () == raw (v.data ()) + (n - 1))
+            && (&cv.front () == raw (v.data ())) && (&cv.back () == raw (v.data ()) + (n - 1));
   // iterator algebra (random access requirements) on iterator and const_iterator
   {
     typedef typename V::iterator it_t;
@@ -853,8 +951,8 @@ static int views_agree (V &v)     // bit 0: member views contiguous / consistent
         it_t q = e; q -= static_cast<d_t> (n - i);
         it_t r = b; for (sz_t j = 0; j < i; ++j) { if (j & 1) ++r; else r++; }
         it_t s = e; for (sz_t j = i; j < n; ++j) { if (j & 1) --s; else s--; }
-        ok = ok && (&*p == v.data () + i) && (p == q) && (r == p) && (s == p) && (k + b == p) && (e - static_cast<d_t> (n - i) == p)
-                && (&b[k] == v.data () + i) && (&cb[k] == v.data () + i) && (p - b == k) && (p.operator-> () == v.data () + i)
+        ok = ok && (&*p == raw (v.data ()) + i) && (p == q) && (r == p) && (s == p) && (k + b == p) && (e - static_cast<d_t> (n - i) == p)
+                && (&b[k] == raw (v.data ()) + i) && (&cb[k] == raw (v.data ()) + i) && (p - b == k) && (raw (p.operator-> ()) == raw (v.data ()) + i)
                 && ((p < e)) && (b <= p) && (p >= b) && ((p > b) == (i > 0));
         cit_t cp = cb + k;
         ok = ok && (cp == p) && (p == cp) && (cp - cb == k) && (cp - b == k) && (p - cb == k) && ((cp < e) && (b <= cp));
@@ -874,7 +972,7 @@ static int views_agree (V &v)     // bit 0: member views contiguous / consistent
   ok = ok && rbegin (cv) == cv.rbegin () && rend (cv) == cv.rend ();
   ok = ok && crbegin (v) == v.crbegin () && crend (v) == v.crend ();
   ok = ok && size (v) == v.size () && empty (v) == v.empty ();
-  ok = ok && data (v) == v.data () && data (cv) == cv.data ();
+  ok = ok && raw (data (v)) == raw (v.data ()) && raw (data (cv)) == raw (cv.data ());
   ok = ok && static_cast<sz_t> (gch::ssize (v)) == v.size ();
   nm = ok;
   ok = mem_ok;
@@ -894,7 +992,7 @@ static void probe_one (FILE *f, V &v)
   typename V::size_type n = v.size ();
   unsigned long long lim = n > 4096 ? 32 : n;      // long-run stimuli: log a short prefix only ("etrunc")
   for (unsigned long long i = 0; i < lim; ++i)
-    fprintf (f, "%s[%d,%d]", i ? "," : "", val_of (v.data ()[i]), mf_of (v.data ()[i]));
+    fprintf (f, "%s[%d,%d]", i ? "," : "", val_of (raw (v.data ())[i]), mf_of (raw (v.data ())[i]));
   int va = n <= 4096 ? views_agree (v) : 3;
   fprintf (f, "],%s\"sz\":%ld,\"cap\":%ld,\"st\":%d,\"al\":%d,\"inl\":%s,\"inlb\":%s,\"max\":%ld,\"icap\":%ld,\"ok\":%s,\"nm\":%s}",
            n > 4096 ? "\"etrunc\":true," : "", clamp30 (n), clamp30 (v.capacity ()), st, alloc_id (v.get_allocator ()),
@@ -1013,7 +1111,7 @@ static bool op_copy_family (V &v, const Op &op, OpResult &res, Bool<true>)
                           ARM ();
                           r = &v.emplace_back (v[static_cast<sz_t> (op.a[0])]); }
       else { prepare_arg (res); ARM (); r = &v.emplace_back (*g_arg); }
-      res.ret = static_cast<long> (r - v.data ());
+      res.ret = static_cast<long> (r - raw (v.data ()));
     }
   else if (! std::strcmp (nm, "insert"))
     {
@@ -1216,7 +1314,7 @@ static void op_unary (V &v, const Op &op, OpResult &res)
       int x = g_next_val++; res.vals.push_back (x);
       ARM ();
       const Elem *r = &v.emplace_back (x);
-      res.ret = static_cast<long> (r - v.data ());
+      res.ret = static_cast<long> (r - raw (v.data ()));
     }
   else if (! std::strcmp (nm, "insert_m"))
     {
@@ -1610,10 +1708,10 @@ static void compute_inline_offsets ()
 #if ! CFG_VECTOR
   {
     VA *a = ::new (static_cast<void *> (g_mem[0].obj)) VA ();
-    if (CFG_NA > 0 && a->data ()) g_inl[0] = reinterpret_cast<const char *> (a->data ());
+    if (CFG_NA > 0 && raw (a->data ())) g_inl[0] = reinterpret_cast<const char *> (raw (a->data ()));
     a->~VA ();
     VB *b = ::new (static_cast<void *> (g_mem[1].obj)) VB ();
-    if (CFG_NB > 0 && b->data ()) g_inl[1] = reinterpret_cast<const char *> (b->data ());
+    if (CFG_NB > 0 && raw (b->data ())) g_inl[1] = reinterpret_cast<const char *> (raw (b->data ()));
     b->~VB ();
   }
 #endif
